@@ -16,6 +16,9 @@ var commonAssume = []string{
 }
 
 var props = []propCfg{
+	{ID: "C09", Pkg: "c09", Quick: q(4, 1), Thorough: th(16, 15),
+		Rule: "cases = (LinkedHashMap | LinkedHashSet, int | string keys [string domain includes escaped characters and a key contained in another], constructor values, script of Put/Add (variadic), Remove, Clear over 6..8-key domains) plus every sequence of a fixed length over put/remove of 3 keys and clear; oracle = ordered-slice model (position of first insertion since last absent): Keys/Values, forward and backward iterator, Each callback order and indices, and the key order of ToJSON (read with a token decoder) equal the model after every step. Non-trivial: >= 3 live keys at some point AND a re-put of a live key AND a remove-then-reinsert. Distinct = FNV-64 of the canonical JSON of the case.",
+		Assume: commonAssume},
 	{ID: "C10", Pkg: "c10", Quick: q(4, 1), Thorough: th(16, 15),
 		Rule: "cases = (kind, key and value comparators for TreeBidiMap, script of Put/Remove/Clear with keys and values from one small range so that every collision class is common) plus every sequence of a fixed length over the 13 operations with keys, values in {0,1,2}; oracle = two-map model with the stated eviction order; after every step Get(k) and GetKey(v) for every k, v of the domain (+-1) equal the model and are mutually inverse, Keys/Values are the model's sets, Size == len(Keys) == len(Values) == pairs, no displaced pair is returned. Non-trivial: the history contains a new-key/same-value Put AND a same-key/new-value Put. Distinct = FNV-64 of the canonical JSON of the case.",
 		Assume: commonAssume},
@@ -25,12 +28,18 @@ var props = []propCfg{
 	{ID: "C02", Pkg: "c02", Quick: q(4, 1), Thorough: th(16, 12),
 		Rule: "cases = (kind, key comparator [natural, reversed, scrambled bijection, k>>1, k mod 5], value comparator (TreeBidiMap), B-tree order, history of put/rem/clear/runs over sparse keys (multiples of 3) interleaved with probe keys that fall between neighbours, below the minimum and above the maximum); oracle = comparator-sorted model: Keys/Values/forward and backward iteration strictly ascending and equal to the model (modulo comparator-equality), least/greatest element accessors, Floor/Ceiling against a scan of the model with exact found-flag. Non-trivial: >= 3 keys live when a probe that is absent (between neighbours or out of range) is navigated, or the comparator is not the natural one, or (kinds without Floor/Ceiling) a mutation of a >= 3-key container whose full order is re-checked. Distinct = FNV-64 of the canonical JSON of the case.",
 		Assume: commonAssume},
+	{ID: "C06", Pkg: "c06", Quick: q(4, 1), Thorough: th(16, 15),
+		Rule: "cases = (BinaryHeap | PriorityQueue, min | max comparator on the priority of (P,ID) items so that ties are distinguishable, script of Push(1 item), Push(k items, k in {0,2..8,17}), Pop, Peek, Clear, FromJSON(array of items in arbitrary order)) plus every permutation of a 6-element multiset with ties pushed singly / in bulk / loaded from JSON / interleaved with pops; oracle = exact multiset model: Pop/Peek return a contained element that no contained element precedes, Pop removes exactly that copy, Values() and iteration are permutations of the contents starting with the Peek element, final drain non-decreasing and multiset-exact. Non-trivial: a Pop after a Push after a Pop, or a bulk push onto a non-empty heap, or FromJSON of a non-heap-ordered array followed by a Pop. Distinct = FNV-64 of the canonical JSON of the case.",
+		Assume: append([]string{"heap layout, Peek/Pop identity among ties and pop order among ties are not asserted"}, commonAssume...)},
 	{ID: "C07", Pkg: "c07", Quick: q(4, 1), Thorough: th(16, 10),
 		Rule: "cases = (kind, comparator, B-tree order m in {3..9,16,32,33,64}, workload of sorted / reverse-sorted / zig-zag / pseudo-random runs, delete-min-insert-max churn, random removals, drains, clears) plus small single-op histories plus every insertion-permutation x removal-permutation of k keys; oracle (a) shape from exported fields after every step for n<=64 and every 16th step above (AVL height balance, B-tree node bounds / leaf depth / Height(), red-black longest<=2*shortest path, node count == Size(), parent links), (b) a counting comparator around every single Put/Remove/Get against the bound stated in the property (4x per comparator for TreeBidiMap). Non-trivial: the history reaches n >= 32 keys and removes at least n/4 of them, or is a complete permutation pair. Distinct = FNV-64 of the canonical JSON of the case.",
 		Assume: append([]string{"colour rules of the red-black tree are deliberately not asserted (the property is stated in path lengths and comparator calls)"}, commonAssume...)},
 	{ID: "C03", Pkg: "c03", Quick: q(4, 1), Thorough: th(16, 15),
 		Rule: "cases = (initial values for New, script of Add/Append/Prepend/Insert/Remove/Set/Swap/Sort/Clear/Contains with wild indices [MinInt, negatives, 0, middle, size-1, size, beyond, MaxInt], 0..4-value variadics with duplicates, bulk adds and removal runs crossing the array list's grow/shrink thresholds), each case run on ArrayList, SinglyLinkedList and DoublyLinkedList at once; plus every pair of index operations at every index -1..n+1 for initial lengths 0..4; oracle = slice model after every step (Values, Size, Empty, Get(-2..size+1), IndexOf of every domain value, Contains), Sort exact for total orders and permutation+non-decreasing for the coarse order. Non-trivial: at least one Insert/Remove/Set/Swap that takes effect on a list of >= 2 elements. Distinct = FNV-64 of the canonical JSON of the case.",
 		Assume: append([]string{"sort stability is not assumed; ArrayList has no Append/Prepend, the script uses Add / Insert(0,...) there"}, commonAssume...)},
+	{ID: "C04", Pkg: "c04", Quick: q(4, 1), Thorough: th(16, 15),
+		Rule: "cases = (constructor values, script of variadic Add/Remove (0..6 arguments, duplicates inside one call, members and non-members mixed), Clear and Contains probes over a 9-value domain), each case run at once on HashSet, TreeSet (natural, reversed, and the many-to-one order k>>1 with class semantics) and LinkedHashSet; oracle = Go-map set model after every step: Contains(x) for every x of the domain (+-1), Contains(xs...) incl. the empty list, Size, Empty, Values duplicate-free and equal to the model. Non-trivial: (a duplicate inside one Add call OR a re-add after removal) AND a removal of a member. Distinct = FNV-64 of the canonical JSON of the case.",
+		Assume: commonAssume},
 	{ID: "C05", Pkg: "c05", Quick: q(4, 1), Thorough: th(16, 20),
 		Rule: "cases = (kind, capacity, script of add/take/peek/clear with concrete values), drawn by rapid per kind (looped, equal budgets) plus every script of a fixed length over {add,take,clear} for ring capacities 1..4 and the four unbounded kinds; oracle = slice model compared after every step (return values, Size, Empty, Values, Peek, Full) and a final drain. Non-trivial: ring — at least one eviction AND one successful dequeue AND more enqueues than the capacity (wrapped); stacks/queues — a take after an add after a take. Distinct = FNV-64 of the canonical JSON of the case, merged exactly across shards.",
 		Assume: commonAssume},
